@@ -547,15 +547,21 @@ func (pr *ProtoArray) inSubtree(anchorIndex NodeIndex, lookupIndex NodeIndex) (u
 		return false, false
 	}
 	// shortcut: if they have the same relative head, they are on the same chain.
-	if anchorNode.BestDescendant == lookupIndex || anchorNode.BestDescendant == lookupNode.BestDescendant {
+	// Only if the anchor has a relative head at all: two leaves both have NONE, and are not on the same chain.
+	if anchorNode.BestDescendant != NONE &&
+		(anchorNode.BestDescendant == lookupIndex || anchorNode.BestDescendant == lookupNode.BestDescendant) {
 		return false, true
 	}
 	// Root may still be on a different non-canonical branch out of the anchor.
 	for i := lookupNode.TransitionParent; i != NONE && i >= anchorIndex; {
+		// we walked back to the anchor itself: in the subtree.
+		if i == anchorIndex {
+			return false, true
+		}
 		tmp := &pr.nodes[i]
 		// early exit: as soon as we find a node that has the same relative head as the anchor,
 		// we know we are in-between the anchor and the head, thus in the subtree, thus an ancestor.
-		if tmp.BestDescendant == anchorNode.BestDescendant {
+		if anchorNode.BestDescendant != NONE && tmp.BestDescendant == anchorNode.BestDescendant {
 			return false, true
 		}
 		i = tmp.TransitionParent
